@@ -219,6 +219,30 @@ func (c *CheckCtx) evaluate() {
 	if len(sats) == 0 {
 		return
 	}
+	// a broken tree can produce thousands of counterexamples; replaying a sample
+	// is enough to report the violation (the rest is counted in the evidence)
+	const maxReplay = 48
+	if len(sats) > maxReplay {
+		c.Extra["counterexamples_not_replayed"] = len(sats) - maxReplay
+		// keep a spread over the jobs rather than the first job's paths only
+		seenJob := map[string]int{}
+		var keep, rest []satRef
+		for _, sr := range sats {
+			if seenJob[sr.jr.Job.Label] < 2 && len(keep) < maxReplay {
+				seenJob[sr.jr.Job.Label]++
+				keep = append(keep, sr)
+			} else {
+				rest = append(rest, sr)
+			}
+		}
+		for _, sr := range rest {
+			if len(keep) >= maxReplay {
+				break
+			}
+			keep = append(keep, sr)
+		}
+		sats = keep
+	}
 	// native replay, grouped by harness dir
 	byDir := map[string][]int{}
 	paths := make([]string, len(sats))
